@@ -1190,6 +1190,37 @@ func ruleC09b(c *Ctx) {
 				c.check(okAll, name, construct+" after every requested header was checked", p.ipos(g), "every path carries "+headerHelper.Call.StaticCallee().Name()+"(headers) == true, or the header is empty", why)
 			}
 		}
+		// the method predicate answers true only for whole-string equality with an element of the list it is given
+		if methodCheck != nil {
+			h := methodCheck.Call.StaticCallee()
+			var mp, lp *ssa.Parameter
+			for k, a := range methodCheck.Call.Args {
+				if k >= len(h.Params) {
+					continue
+				}
+				if _, ok := requestHeaderGet(p, a, "Access-Control-Request-Method"); ok {
+					mp = h.Params[k]
+				}
+				if _, isSlice := a.Type().Underlying().(*types.Slice); isSlice {
+					lp = h.Params[k]
+				}
+			}
+			okPred := false
+			if mp != nil && lp != nil {
+				okPred = positiveUnderEquality(p, h, func(x, y ssa.Value) bool {
+					if strip(x) != ssa.Value(mp) {
+						return false
+					}
+					u, ok := strip(y).(*ssa.UnOp)
+					if !ok {
+						return false
+					}
+					ia, ok := u.X.(*ssa.IndexAddr)
+					return ok && strip(ia.X) == ssa.Value(lp)
+				}) != nil
+			}
+			c.check(okPred, p.fname(h), "the requested method is accepted only when it equals an allowed method", p.pos(h.Pos()), "true only under method == <element of the list>, false otherwise", "the method check can answer true without the requested method being equal to an element of the allowed list")
+		}
 		// the list tested is the list granted
 		if methodCheck != nil && methodList != nil {
 			same := false
@@ -1422,6 +1453,29 @@ func behindHeaderLoop(p *Program, fn *ssa.Function, check *ssa.Call, g ssa.Instr
 	if reachableBlocks(g.Block().Succs, nil)[header] {
 		return false, "the grant is executed before the requested headers are checked"
 	}
+	// a path that bypasses the loop is only taken when no header was requested
+	var hdr ssa.Value
+	eachInstr(fn, func(i ssa.Instruction) {
+		if call, ok := i.(*ssa.Call); ok && calleeName(&call.Call) == "strings.Split" {
+			if _, ok := requestHeaderGet(p, call.Call.Args[0], "Access-Control-Request-Headers"); ok {
+				hdr = strip(call.Call.Args[0])
+			}
+		}
+	})
+	if hdr != nil {
+		paths, ok := enumPaths(fn, g.Block(), 3000)
+		if !ok {
+			return false, "too many paths to the grant"
+		}
+		for _, pa := range paths {
+			if pa.has(done) && pa.has(header) {
+				continue
+			}
+			if !emptyStringFact(pa.Facts, hdr) {
+				return false, "a path reaches the grant without running the header loop although the request may carry Access-Control-Request-Headers (the test that skips the loop is not 'the header is empty')"
+			}
+		}
+	}
 	return true, ""
 }
 
@@ -1626,6 +1680,102 @@ func ruleC09e(c *Ctx) {
 				return
 			}
 			n++
+			// computed only when no methods are configured
+			cfacts := factsAt(fn)
+			onlyWhenNone := false
+			noneFact := func(fs map[condFact]bool) bool {
+				for f := range fs {
+					bo, ok := f.Cond.(*ssa.BinOp)
+					if !ok || !f.Pol {
+						continue
+					}
+					if lc, ok := strip(bo.X).(*ssa.Call); ok && isBuiltinCall(lc, "len") {
+						if _, fld, ok := fieldLoad(strip(lc.Call.Args[0])); ok && fld.Name() == "AllowedMethods" {
+							if n0, ok := constInt(bo.Y); ok && ((bo.Op == token.EQL && n0 == 0) || (bo.Op == token.LEQ && n0 == 0) || (bo.Op == token.LSS && n0 == 1)) {
+								return true
+							}
+						}
+					}
+				}
+				return false
+			}
+			if noneFact(cfacts[i.Block()]) {
+				onlyWhenNone = true
+			} else {
+				// the guard may sit at the call site of a helper
+				all, nsite := true, 0
+				for _, e := range p.callGraph().In[fn] {
+					if e.Kind != EdgeStatic {
+						continue
+					}
+					nsite++
+					if !noneFact(factsAt(e.Caller)[e.Site.Block()]) {
+						all = false
+					}
+				}
+				onlyWhenNone = all && nsite > 0
+			}
+			c.check(onlyWhenNone, p.fname(fn), "allowed methods are computed only when none are configured", p.ipos(i), "under len(c.AllowedMethods) == 0", "the routable methods replace the configured AllowedMethods (the computation is not guarded by 'no methods configured')")
+			// the container: the configured one when present, the default one only otherwise
+			edgeCtx := func(v ssa.Value) []struct {
+				val ssa.Value
+				fs  map[condFact]bool
+			} {
+				var out []struct {
+					val ssa.Value
+					fs  map[condFact]bool
+				}
+				if phi, ok := strip(v).(*ssa.Phi); ok {
+					for k, e := range phi.Edges {
+						pr := phi.Block().Preds[k]
+						fs := map[condFact]bool{}
+						for f := range cfacts[pr] {
+							fs[f] = true
+						}
+						if iff, ok := pr.Instrs[len(pr.Instrs)-1].(*ssa.If); ok && pr.Succs[0] != pr.Succs[1] {
+							addCondFacts(fs, iff.Cond, pr.Succs[0] == phi.Block())
+							deriveFacts(fs)
+						}
+						out = append(out, struct {
+							val ssa.Value
+							fs  map[condFact]bool
+						}{e, fs})
+					}
+					return out
+				}
+				return append(out, struct {
+					val ssa.Value
+					fs  map[condFact]bool
+				}{v, cfacts[i.Block()]})
+			}
+			containerNil := func(fs map[condFact]bool) (isNil, isNonNil bool) {
+				for f := range fs {
+					bo, ok := f.Cond.(*ssa.BinOp)
+					if !ok || !f.Pol || !isNilConst(bo.Y) {
+						continue
+					}
+					if _, fld, ok := fieldLoad(strip(bo.X)); ok && fld.Name() == "Container" {
+						if bo.Op == token.EQL {
+							isNil = true
+						}
+						if bo.Op == token.NEQ {
+							isNonNil = true
+						}
+					}
+				}
+				return
+			}
+			okChoice := true
+			for _, ec := range edgeCtx(call.Call.Args[0]) {
+				isNil, isNonNil := containerNil(ec.fs)
+				if isLoadOfGlobal(strip(ec.val), "DefaultContainer") && !isNil {
+					okChoice = false
+				}
+				if _, fld, ok := fieldLoad(strip(ec.val)); ok && fld.Name() == "Container" && !isNonNil {
+					okChoice = false
+				}
+			}
+			c.check(okChoice, p.fname(fn), "the default container is used only when none is configured", p.ipos(i), "DefaultContainer under c.Container == nil, c.Container under != nil", "the container whose routes are consulted does not follow the configuration (the nil test is flipped or missing)")
 			okReq := len(call.Call.Args) == 2 && rq != nil && p.sameValue(call.Call.Args[1], rq)
 			c.check(okReq, p.fname(fn), "allowed methods are computed for this request", p.ipos(i), "argument is the filter's own request", "the methods are computed for another request/URL")
 			okC := true
